@@ -20,7 +20,8 @@ PKGS = ["./cmd/instance"]
 DEV_SEQ = {"AliasDefaults": {"cache", "history"}, "CollideEither": {"nondeterministic"}, "StripInPlace": {"argument"},
            "StripRestore": {"argument"}, "DirtyScratch": {"history"}, "EnumEarlyReturn": {"nondeterministic"},
            "StaleMemo": {"history", "nondeterministic"}, "SharedError": {"history"},
-           "SortInPlace": {"describe"}, "ConvertInPlace": {"argument"}}
+           "SortInPlace": {"describe"}, "ConvertInPlace": {"argument"},
+           "EarlyExitWalk": {"history", "nondeterministic"}}
 
 
 def hist_cases(recs, reps, targeted=False):
